@@ -566,6 +566,21 @@ func handlerPart(sc *Scenario, thorough bool) (out *hOut) {
 	free := sc.Exec(mc.NewExec(nil), false)
 	store, remote := docsRead(free.App)
 	run("none", "", "none", nil, nil)
+	// the Content-Length a POST declares (the body is the ordinary one): unknown, zero, off by one, absurdly large
+	if sc.Entry == "PostInbox" || sc.Entry == "PostOutbox" {
+		for _, dl := range []int64{-1, 1, int64(len(ap.MustJSON(sc.Body))) - 1, int64(len(ap.MustJSON(sc.Body))) + 1, 1 << 20, 1 << 31, 1 << 40, 1 << 62, 9223372036854775807} {
+			if sc.Body == nil {
+				break
+			}
+			dl := dl
+			func() {
+				saved := sc.DeclLen
+				sc.DeclLen = dl
+				defer func() { sc.DeclLen = saved }()
+				run("request", "Content-Length", fmt.Sprint(dl), nil, nil)
+			}()
+		}
+	}
 	// recursion limits
 	for _, lim := range []int{1, 2, 4} {
 		lim := lim
@@ -987,7 +1002,7 @@ func C11(tier string) int {
 		bound = 2
 	}
 	res.Extra["mutation_bound_completed"] = bound
-	res.Rule = fmt.Sprintf("(1) decoder: every type x every member name (all properties, their Map forms, type, id, @context) x %d junk JSON values x {scalar, list} through decode->encode->decode->encode, plus every example embedded in the vocabulary files with each node mutated by %d operators; (2) handlers: for each of %d scenarios (all entry points), every JSON node of the request body, of every stored / remote document the fault-free run reads and (GetInbox / GetOutbox) of the page the application supplies is, one at a time (thorough: two at a time), removed, nulled, emptied or replaced by a value of another kind (number, bool, array, object without id, unknown type, IRI to a missing / ill-typed / incomplete / unknown-type / garbled / cyclic document; an embedded Link / Mention named by href only, a Link with id and href, a two-element list), plus whole-document replacements, (2b) the unmutated request and every body node replaced by an unusual but legal value (removed, [], object without id, typeless object, unreachable IRI, href-only Link / Mention, Link with id and href, two-element list; thorough: every operator, and the documents read too) each again with every single seam call failing (deviation bound: one mutation + one fault), every such document re-spelled with ActivityStreams imported under an alias (alone and with a stray un-aliased / aliased twin of each reference member holding [], [{}], an IRI, null or three objects) and recursion limits 1,2,4; (3) every POST / Send scenario with exactly one application hook configured (each of 12 hooks, wrapped or as 'other' override); (4) the delivering entry points (client POST, Send, auto-accepted Follow, inbox forwarding) with the library's own HttpSigTransport over a fake HTTP client: a remote collection of 1..65 (thorough: 257) actors of which 0, 1, 2 or all answer the delivery with 500 / 404 / a client error / a mixture; (5) every corpus scenario and the generated addressing family (same collection / target / object named twice) once more as a single request with the application's locks as real non-re-entrant blocking resources (a request waiting for a lock it holds never returns); oracle: no panic, returns within the seam-call horizon (a request still running after 60 s is reported by the process-wide watchdog); distinct = (target document, path, operator)", len(junk)+1, len(mutOps), len(scs))
+	res.Rule = fmt.Sprintf("(1) decoder: every type x every member name (all properties, their Map forms, type, id, @context) x %d junk JSON values x {scalar, list} through decode->encode->decode->encode, plus every example embedded in the vocabulary files with each node mutated by %d operators; (2) handlers: for each of %d scenarios (all entry points), every JSON node of the request body, of every stored / remote document the fault-free run reads and (GetInbox / GetOutbox) of the page the application supplies is, one at a time (thorough: two at a time), removed, nulled, emptied or replaced by a value of another kind (number, bool, array, object without id, unknown type, IRI to a missing / ill-typed / incomplete / unknown-type / garbled / cyclic document; an embedded Link / Mention named by href only, a Link with id and href, a two-element list), plus whole-document replacements, and POSTs declaring a Content-Length that is unknown, off by one or absurdly large (up to 2^63-1) for the ordinary body, (2b) the unmutated request and every body node replaced by an unusual but legal value (removed, [], object without id, typeless object, unreachable IRI, href-only Link / Mention, Link with id and href, two-element list; thorough: every operator, and the documents read too) each again with every single seam call failing (deviation bound: one mutation + one fault), every such document re-spelled with ActivityStreams imported under an alias (alone and with a stray un-aliased / aliased twin of each reference member holding [], [{}], an IRI, null or three objects) and recursion limits 1,2,4; (3) every POST / Send scenario with exactly one application hook configured (each of 12 hooks, wrapped or as 'other' override); (4) the delivering entry points (client POST, Send, auto-accepted Follow, inbox forwarding) with the library's own HttpSigTransport over a fake HTTP client: a remote collection of 1..65 (thorough: 257) actors of which 0, 1, 2 or all answer the delivery with 500 / 404 / a client error / a mixture; (5) every corpus scenario and the generated addressing family (same collection / target / object named twice) once more as a single request with the application's locks as real non-re-entrant blocking resources (a request waiting for a lock it holds never returns); oracle: no panic, returns within the seam-call horizon (a request still running after 60 s is reported by the process-wide watchdog); distinct = (target document, path, operator)", len(junk)+1, len(mutOps), len(scs))
 	res.Assumptions = []string{"arbitrary byte strings are replaced by a bounded junk alphabet and grammar-based mutations; coverage-guided fuzzing (sampling) is deliberately not used",
 		"a hang that makes no seam call is caught only by the worker timeout"}
 	return res.Finish()
